@@ -542,6 +542,25 @@ func main() {
 		res.Violations = append(res.Violations, res.viol[k])
 	}
 	res.Races = raceCandidates(accesses)
+	// one violation per racy location
+	racyLoc := map[string]string{}
+	for _, r := range res.Races {
+		// "RACE-CANDIDATE loc=<loc> write@..."
+		rest := strings.TrimPrefix(r, "RACE-CANDIDATE loc=")
+		if i := strings.Index(rest, " "); i > 0 {
+			if _, ok := racyLoc[rest[:i]]; !ok {
+				racyLoc[rest[:i]] = rest[i+1:]
+			}
+		}
+	}
+	var locs []string
+	for l := range racyLoc {
+		locs = append(locs, l)
+	}
+	sort.Strings(locs)
+	for _, l := range locs {
+		res.Violations = append(res.Violations, &Violation{Kind: "race", AssertID: "unsynchronised access to " + l, Tags: []string{}, Where: racyLoc[l], Vector: []uint64{}, Count: 1})
+	}
 	for k, n := range res.Ends {
 		if (k == "unsupported" || k == "internal" || k == "fuel") && n > 0 && !res.Incomplete {
 			// paths were cut: exploration is not exhaustive within the bound
